@@ -331,6 +331,10 @@ class Obligation:
         return d
 
 
+class _SoftAbort(Exception):
+    pass
+
+
 class Checker:
     """Collects the obligations of one property's rules."""
 
@@ -351,12 +355,38 @@ class Checker:
         if text not in self.assumptions:
             self.assumptions.append(text)
 
+    # ---- soft scopes: structural rules whose clause is decided by a fold -------------------------------------------
+    _soft = None
+
+    def soft(self, covered_by):
+        """Context manager.  Inside it the structural (shape) rules speak only when they recognise what they see:
+        a failed check, a failed `need`, a missing anchor or an unmet instance floor means "this is written in a way
+        the rule does not know", and the clause is left to the fold named in `covered_by` (which decides the behaviour
+        of whatever is written there).  Nothing inside a soft scope can produce a violation or an analysis error."""
+        import contextlib
+        ck = self
+
+        @contextlib.contextmanager
+        def scope():
+            prev = ck._soft
+            ck._soft = covered_by
+            try:
+                yield
+            except (_SoftAbort, AnalysisError) as e:
+                ck.notes.setdefault('structural_rules_not_applicable', []).append(f'{str(e)[:200]} [left to {covered_by}]')
+            finally:
+                ck._soft = prev
+        return scope()
+
     def ok(self, rule, mod, node, what, detail=None, construct=None):
         self.obligations.append(
             Obligation(rule, self.repo.loc(mod, node, construct), what, 'ok', '', detail)
         )
 
     def bad(self, rule, mod, node, what, msg, detail=None, construct=None):
+        if self._soft:
+            self.skip(rule, mod, node, what, self._soft, construct)
+            return
         self.obligations.append(
             Obligation(rule, self.repo.loc(mod, node, construct), what, 'violation', msg, detail)
         )
@@ -392,11 +422,15 @@ class Checker:
     def need(self, cond, msg):
         """Analyser-side requirement: failing it is an ANALYSIS-ERROR, not a verdict."""
         if not cond:
+            if self._soft:
+                raise _SoftAbort(msg)
             raise AnalysisError(msg)
 
     def floor(self, rule, minimum):
         n = sum(1 for o in self.obligations if o.rule == rule)
         self.counts[rule] = n
+        if self._soft:
+            return n
         if n < minimum and not any(o.rule == rule and o.status == 'violation' for o in self.obligations):
             raise AnalysisError(
                 f'{rule}: only {n} rule instances found, at least {minimum} were '
